@@ -49,7 +49,10 @@ for i in range(1, 21):
     nobl = len(re.findall(r"^#print axioms", open(os.path.join(lean, "IbicusModel", "Audit", p + ".lean")).read(), re.M))
     hp = os.path.join(root, "harness", p.lower() + ".py")
     src = open(hp).read()
-    gen = re.search(r"^GEN\s*=\s*(\[.*?\])", src, re.M | re.S)
+    # tier-A groups = every Gen module the audit imports transitively (what lean_phase regenerates), own groups of the harness first
+    own = re.findall(r'"(\w+)"', " ".join(re.findall(r"^GEN\s*\+?=\s*(\[.*?\])", src, re.M | re.S)))
+    allg = sorted(m.split(".")[-1] for m in seen if m.startswith("IbicusModel.Gen."))
+    gen_txt = ", ".join(own + [g + "*" for g in allg if g not in own]) or "—"
     helpers = sorted(set(n.strip().split(" as ")[0] for h in re.findall(r"^from harness import ([\w, ]+)", src, re.M) for n in h.split(",")) - {"common", "C"})
     print(f"| {p} | {nobl} | `{short('Model')}` | `{short('Lemmas')}` | `{short('Props')}` | `{', '.join(sorted(drivers_of(hp)))}` | "
-          f"`{p.lower()}.py`{(' + ' + ', '.join(helpers)) if helpers else ''} | {gen.group(1) if gen else '—'} |")
+          f"`{p.lower()}.py`{(' + ' + ', '.join(helpers)) if helpers else ''} | {gen_txt} |")
